@@ -2189,7 +2189,7 @@ def sync(loop, func, *args, **kwargs):
     e = threading.Event()
     main_tid = get_thread_identity()
     result = [None]
-    error = [False]
+    error = [None]
 
     @gen.coroutine
     def f():
@@ -2216,7 +2216,7 @@ def sync(loop, func, *args, **kwargs):
         while not e.is_set():
             e.wait(10)
 
-    if error[0]:
+    if error[0] is not None:
         raise error[0]
     else:
         return result[0]
